@@ -315,6 +315,11 @@ def run(ctx):
                     ctx.undecided('R16.11', 'path.%s.%s' % (cname, obs), 'query, reassign a control point, query again == fresh segment',
                                   'the history left the interpretable fragment', where=where(cls.methods[obs]))
 
+    # ------------------------------------------------------------------ R16.12 one-step histories on Path
+    ctx.rule('R16.12', 'Path: query, mutate, query again - point/T2t/t2T/length/start/end after every primitive mutation equal those of a '
+                       'path freshly built from the new segment list (covers caches derived from the length table, whatever they are called)', 20)
+    _path_histories(ctx, mdl, PathC)
+
     # ------------------------------------------------------------------ R16.4 reads after compute
     ctx.extra['table_builders'] = sorted(ensurers)
     for fi in sorted(PathC.all_funcs(), key=lambda f: f.line):
@@ -334,6 +339,9 @@ def run(ctx):
         for r in reads:
             st = enclosing_stmt(r)
             ok = cfg.dominated_by(st, calls) and st not in calls
+            if not ok and fi.name.startswith('_') and not fi.name.startswith('__'):
+                # a private helper with the precondition "the table is there": every call site inside the class must establish it
+                ok = _callers_ensure(PathC, fi.name, set(ensurers), set())
             ctx.record('R16.4', fi.qualname, 'read %s @%s' % (r.attr, norm(st).split('\n')[0][:60]), ok,
                        detail='' if ok else 'read of self.%s not dominated by a call of a method that rebuilds the table (%s)' % (r.attr, ', '.join(sorted(ensurers))),
                        where=where(fi, st))
@@ -1050,6 +1058,31 @@ def _semantic_readers(ctx, mdl, PathC):
 
 # ------------------------------------------------------------------------------------------------
 # segments are mutable: an observation made after an in-place change of a control point must be the one a fresh segment gives
+def _callers_ensure(PathC, helper, ensurers, seen):
+    """is every call `self.<helper>(...)` in the class dominated by a call of a table builder (directly, or because the calling
+    method is itself a private helper all of whose callers do)?"""
+    if helper in seen:
+        return True
+    seen = seen | {helper}
+    sites = 0
+    for fi in PathC.all_funcs():
+        stmts = [enclosing_stmt(n) for n in walk_no_nested(fi.node) if isinstance(n, ast.Call) and isinstance(n.func, ast.Attribute)
+                 and n.func.attr == helper and isinstance(n.func.value, ast.Name) and n.func.value.id == 'self']
+        if not stmts:
+            continue
+        cfg = CFG(fi.node)
+        calls = {enclosing_stmt(n) for n in walk_no_nested(fi.node) if isinstance(n, ast.Call) and isinstance(n.func, ast.Attribute)
+                 and n.func.attr in ensurers and isinstance(n.func.value, ast.Name) and n.func.value.id == 'self'}
+        for st in stmts:
+            sites += 1
+            if cfg.dominated_by(st, calls) and st not in calls:
+                continue
+            if fi.name.startswith('_') and not fi.name.startswith('__') and _callers_ensure(PathC, fi.name, ensurers, seen):
+                continue
+            return False
+    return sites > 0
+
+
 def _struct_equal(a, b, depth=0):
     if depth > 8:
         return False
@@ -1135,3 +1168,68 @@ def _history_equals_fresh(ctx, mdl, cname, fi, rule, record=True):
         ctx.record(rule, 'path.%s.%s' % (cname, fi.name), 'query, reassign a control point, query again == fresh segment', verdict,
                    detail='; '.join(details[:2]), where=where(fi))
     return verdict
+
+
+def _path_histories(ctx, mdl, PathC):
+    Tq = Rat.sym('Tq')
+    observers = [('point', (Tq,)), ('T2t', (Tq,)), ('t2T', (1, Rat.sym('tloc'))), ('length', ()), ('start:getter', ()), ('end:getter', ())]
+    mutations = [('__setitem__', (1, 'NEW')), ('__setitem__', (-1, 'NEW')), ('__delitem__', (0,)), ('insert', (0, 'NEW')), ('insert', (3, 'NEW')),
+                 ('start:setter', ('PT',)), ('end:setter', ('PT',))]
+    if ctx.tier != 'thorough':
+        mutations = mutations[:1] + mutations[2:4] + mutations[5:]
+    lens = {}
+
+    def seg_len(it, a, k):
+        s_ = a[0]
+        key = id(s_)
+        if key not in lens:
+            nm = 'SL%d' % len(lens)
+            from svtstatic import poly as _p
+            _p.POSITIVE.add(nm)
+            lens[key] = (Rat.sym(nm), s_)
+        base = lens[key][0]
+        # a segment whose end point was moved in place has another length
+        tag = to_rat(s_.attrs['start']).real() * 0 + base
+        if _mentions_symbol(s_.attrs['start'], 'PT') or _mentions_symbol(s_.attrs['end'], 'PT'):
+            from svtstatic import poly as _p
+            _p.POSITIVE.add(base.key().split('*')[-1] + 'm')
+            tag = Rat.sym(base.key().split('*')[-1] + 'm')
+        t0 = to_rat(k.get('t0', a[1] if len(a) > 1 else 0))
+        t1 = to_rat(k.get('t1', a[2] if len(a) > 2 else 1))
+        return tag * (t1 - t0)
+
+    for oname, oargs in observers:
+        for mname, margs in mutations:
+            def th(it, oname=oname, oargs=oargs, mname=mname, margs=margs):
+                lens.clear()
+                segs = [it.construct('path.Line', Rat.csym('A%d' % k), Rat.csym('B%d' % k)) for k in range(3)]
+                p = it.construct('path.Path', *segs)
+                new = it.construct('path.Line', Rat.csym('NA'), Rat.csym('NB'))
+                it.call_hooks['path.Line.length'] = seg_len
+                it.call_hooks['path.Line.point'] = lambda it2, a, k: ('pt', id(a[0]), a[1])
+
+                def observe(q):
+                    if oname.endswith(':getter'):
+                        g = PathC.getters[oname.split(':')[0]]
+                        return it.call(Closure(g, g.node, None, g.module, q, PathC), [], {})
+                    return it.call_method(q, oname, *oargs)
+
+                observe(p)
+                a = [new if x == 'NEW' else (Rat.csym('PT') if x == 'PT' else x) for x in margs]
+                if mname.endswith(':setter'):
+                    f = PathC.setters[mname.split(':')[0]]
+                    it.call_closure(Closure(f, f.node, None, f.module, p, PathC), a, {})
+                else:
+                    it.call_method(p, mname, *a)
+                after = observe(p)
+                fresh = it.construct('path.Path', *list(p.attrs['_segments']))
+                return after, observe(fresh)
+
+            def judge(v):
+                after, fresh = v
+                ok = _struct_equal(after, fresh)
+                return ok, '' if ok else 'answers %s, a fresh path with the same segments answers %s' % (short(repr(after), 60), short(repr(fresh), 60))
+            fi = PathC.setters[mname.split(':')[0]] if mname.endswith(':setter') else PathC.methods[mname]
+            Obligation(ctx, 'R16.12').run(fi, '%s() / %s%r / %s()' % (oname.split(':')[0], mname, tuple(margs), oname.split(':')[0]), th, judge,
+                                          allowed_raises=('AssertionError', 'ValueError', 'RuntimeError', 'Exception', 'IndexError'), need_return=False,
+                                          opts={'presign': [(Tq, '+'), (Tq - 1, '-'), (Rat.sym('tloc'), '+'), (Rat.sym('tloc') - 1, '-')]})
